@@ -512,7 +512,8 @@ def run_harness(ub, h):
     rc, out, err, secs = run(cmd, timeout, stdout_path=outj)
     res["cmds"].append(" ".join(cmd))
     res["solver_s"] = round(secs, 2)
-    res["backend"] = "cbmc 6.11.0 / " + ("SMT2 " + [f for f in flags if f in ("--z3", "--cvc5")][0] if any(f in ("--z3", "--cvc5") for f in flags) else "SAT (MiniSat2, built in)")
+    res["backend"] = "cbmc 6.11.0 / " + ("SMT2 " + [f for f in flags if f in ("--z3", "--cvc5")][0] if any(f in ("--z3", "--cvc5") for f in flags)
+                                          else ("SAT (CaDiCaL, built in)" if "cadical" in flags else "SAT (MiniSat2, built in)"))
     if rc == -999:
         res.update(status="undecided", reason="cbmc timeout after %ss" % timeout)
         return res
